@@ -254,7 +254,7 @@ class NPProxy(types.ModuleType):
 
     def deg2rad(self, x):
         if has_sym(x):
-            raise NotImplementedError("deg2rad on symbolic angle: use the rational trig parametrisation")
+            return x * (_np.pi / 180.0)
         return _np.deg2rad(x)
 
     def abs(self, x, **kw):
@@ -371,6 +371,7 @@ class NPProxy(types.ModuleType):
         if has_sym(start) or has_sym(stop):
             start = _np.asarray(start, dtype=object) if isinstance(start, (_np.ndarray, list)) else S.S(start)
             stop = _np.asarray(stop, dtype=object) if isinstance(stop, (_np.ndarray, list)) else S.S(stop)
+            num = int(num)
             div = (num - 1) if endpoint else num
             out = []
             for k in range(num):
@@ -408,6 +409,8 @@ def _default_replacements():
     register_replacement(_np.sqrt, PROXY.sqrt)
     register_replacement(_np.array, PROXY.array)
     register_replacement(_np.linalg.inv, PROXY.linalg.inv)
+    register_replacement(_np.linalg.solve, PROXY.linalg.solve)
+    register_replacement(_np.linalg.det, PROXY.linalg.det)
     from . import spstub
 
     spstub.register(register_replacement)
@@ -422,6 +425,7 @@ def symbolic_mode(extra_modules=(), prefixes=_PREFIXES):
     if not _REPLACE:
         _default_replacements()
     saved = []
+    saved_defaults = []
     mods = [m for k, m in list(sys.modules.items()) if m is not None and k.split(".")[0] in prefixes]
     mods.extend(extra_modules)
     for m in mods:
@@ -434,8 +438,16 @@ def symbolic_mode(extra_modules=(), prefixes=_PREFIXES):
             if r is not None and r[0] is val:
                 saved.append((d, name, val))
                 d[name] = r[1]
+            elif isinstance(val, types.FunctionType) and val.__defaults__ and getattr(val, "__module__", None) == getattr(m, "__name__", None):
+                # default arguments bound at def time (e.g. solve=np.linalg.solve)
+                new = tuple(_REPLACE[id(x)][1] if id(x) in _REPLACE and _REPLACE[id(x)][0] is x else x for x in val.__defaults__)
+                if any(a is not b for a, b in zip(new, val.__defaults__)):
+                    saved_defaults.append((val, val.__defaults__))
+                    val.__defaults__ = new
     try:
         yield PROXY
     finally:
         for d, name, val in saved:
             d[name] = val
+        for fn, dflt in saved_defaults:
+            fn.__defaults__ = dflt
